@@ -3,13 +3,16 @@
 (G) histories enumerated by TLC are replayed with the REAL goa command line (built from the repo under
     test) on real design packages and the directory after every operation is compared with the model's;
 (J) the recorded runs - TLC's histories, random longer histories over the real file sets, and N fresh-process
-    generations per design under varied environments - are validated as traces of Trace_GenHistory.tla
+    generations per design under varied environments (hand-written designs through the goa command line, designs
+    assembled from the method shapes TLC enumerates from HTTPTransport.tla through cmd/genhost) - are validated
+    as traces of Trace_GenHistory.tla
     (every path, content class and mtime class after every operation);
 plus in-process repetition (one evaluation, generator.Generate twice) against the same reference."""
 import json, os, random, threading
 import concurrent.futures as cf
 from vlib import core
 from vlib import c09_lab as lab
+from vlib import httpcheck as transport
 
 LEVEL = "model_checking"
 DEVS = ["gen.no_wipe", "example.overwrites", "render.nonce_leak", "gen.wipes_root", "tmp.left_behind", "generate.not_repeatable_in_process"]
@@ -30,7 +33,6 @@ ABS2REAL = {"gen/a/f": "gen/calc/service.go", "gen/b/f": "gen/store/service.go",
 ABS_STRAYS = ["gen/a/stray", "gen/u/stray", "gen/stray", "stray"]
 ABS_CID = {11: (0, "gen", "gen/a/f"), 12: (0, "gen", "gen/b/f"), 13: (0, "ex", "x1"), 14: (0, "ex", "cmd/x2"),
            21: (1, "gen", "gen/a/f"), 22: (1, "gen", "gen/c/f"), 23: (1, "ex", "x1"), 24: (1, "ex", "x3")}
-DET_QUICK = ["rich", "types"]
 ALL_DESIGNS = ["smalla", "smallb", "rich", "types"]
 
 
@@ -223,8 +225,10 @@ def run(ctx):
         with lock:
             return subdir(name)
     ctx.subdir = locked_subdir
-    pool = cf.ThreadPoolExecutor(max_workers=1)
+    pool = cf.ThreadPoolExecutor(max_workers=2)
     model_side = pool.submit(model_checking, ctx, quick)
+    # method shapes of the transport specification (request and response families), for the genhost corpus
+    shapes_side = pool.submit(lambda: (transport.gen_vectors(ctx, "req", 1, 1), transport.gen_vectors(ctx, "res", 1, 1)))
     # ---------------------------------------------------------------- (G) histories from TLC
     g = ctx.gen("mc/MC_GenHistory", "gen/Gen_GenHistory.cfg", consts={"MaxOps": 4 if quick else 5}, label="Gen histories", timeout=1800,
                 workers=8 if quick else "auto")
@@ -249,16 +253,38 @@ def run(ctx):
     refs = L.references(designs)
     ctx.log("references: " + ", ".join("%s %d+%d files" % (d, len(refs[d]["gen"]), len(refs[d]["ex"])) for d in designs))
     cids = lab.Cids()
-    nruns = 10 if quick else 40
-    det_designs = DET_QUICK if quick else designs
+    # fresh-process generations per design: the richest design gets the most (see `flip` below)
+    nruns = {"rich": 16, "types": 6} if quick else {d: 40 for d in designs}
+    # designs assembled from TLC's transport shapes, generated through genhost (no command line, no example)
+    req_v, res_v = shapes_side.result()
+    tdesigns = lab.transport_designs(req_v, res_v, rng, 1 if quick else 4, 8 if quick else 12)
+    for i, td in enumerate(tdesigns):
+        name = "transport%d" % (i + 1)
+        L.add_abstract(name, td)
+        try:
+            refs[name] = L.reference(name)
+        except core.Infra as e:
+            ctx.notes.append("abstract design %s not generated (coverage loss): %s" % (name, str(e)[:300]))
+            del L.abstract[name]
+            continue
+        nruns[name] = 8 if quick else 16
+    # probability that N+1 processes (reference included) all walk a k-entry Go map (<= 8 entries: one bucket, random
+    # starting slot) in the same order, i.e. that an unsorted walk over k items stays unseen
+    most = max(nruns.values()) + 1
+    ctx.cov["unsorted_map_walk_detection"] = {
+        "processes_compared_for_richest_design": most,
+        "P(detect | k items ranged unsorted)": {str(k): round(1 - ((9 - k) / 8.0) ** most - (k - 1) * (1 / 8.0) ** most, 6) for k in range(2, 9)},
+        "note": "rich/session.go declares 5-8 items of every multi-valued DSL element in one place; a 2-item map still flips with "
+                "probability 1/8 per process"}
     jobs = []
     for hc in chosen:
         hist = json.loads(hc)
         jobs.append({"kind": "tlc-history", "hist": hist, "pair": list(PAIR), "ops": real_ops(hist),
                      "strays": [ABS2REAL[s] for s in ABS_STRAYS], "envs": [rng.randrange(len(lab.ENVS)) for _ in hist], "depth": rng.choice([0, 0, 2])})
-    for d in det_designs:
-        for k in range(nruns):
-            jobs.append({"kind": "fresh-process", "pair": [d], "ops": [{"k": "gen", "d": 1}, {"k": "example", "d": 1}], "strays": [],
+    for d in nruns:
+        for k in range(nruns[d]):
+            ops = [{"k": "gen", "d": 1}] + ([] if d in L.abstract else [{"k": "example", "d": 1}])
+            jobs.append({"kind": "fresh-process", "pair": [d], "ops": ops, "strays": [],
                          "envs": [k % len(lab.ENVS), (k + 1) % len(lab.ENVS)], "depth": k % 4, "run": k})
     pairs = [("rich", "types"), ("smallb", "smalla"), ("types", "smalla"), ("smallb", "rich")]
     for k in range(2 if quick else 30):
@@ -273,7 +299,7 @@ def run(ctx):
         return job
     with cf.ThreadPoolExecutor(max_workers=int(os.environ.get("VERIF_C09_PAR") or 8)) as ex:
         cases = list(ex.map(do, jobs))
-    ctx.log("%d goa command lines run (%.0f s of process time), %d cases" % (L.goa_runs, L.goa_secs, len(cases)))
+    ctx.log("%d goa command lines and %d genhost processes run (%.0f s of process time), %d cases" % (L.goa_runs, L.genhost_runs, L.goa_secs, len(cases)))
     # in-process repetition: one evaluation, Generate gen/example/gen/example in ONE process
     def doin(d):
         events, snaps = L.inproc(refs, d, cids, 2)
@@ -316,7 +342,9 @@ def run(ctx):
     pool.shutdown()
     ctx.cov["distinct_nontrivial"] = len(nontriv)
     ctx.cov["goa_command_lines_run"] = L.goa_runs
-    ctx.cov["designs"] = {d: {"gen_files": len(refs[d]["gen"]), "example_files": len(refs[d]["ex"])} for d in designs}
+    ctx.cov["genhost_processes_run"] = L.genhost_runs
+    ctx.cov["fresh_process_runs_per_design"] = nruns
+    ctx.cov["designs"] = {d: {"gen_files": len(refs[d]["gen"]), "example_files": len(refs[d]["ex"])} for d in refs}
     if ctx.selftest or not quick:
         selftest(ctx, cases)
 
